@@ -2390,9 +2390,10 @@ impl KotoVm {
         rhs: KValue,
         op: KValue,
     ) -> Result<bool> {
+        let registers_len = self.registers.len();
         self.call_overridden_op_2(None, lhs, rhs, op)?;
         self.frame_mut().execution_barrier = true;
-        match self.execute_instructions() {
+        let result = match self.execute_instructions() {
             Ok(result) => match result {
                 KValue::Bool(result) => Ok(result),
                 unexpected => unexpected_type("Bool", &unexpected),
@@ -2401,7 +2402,11 @@ impl KotoVm {
                 self.pop_frame(KValue::Null)?;
                 Err(error)
             }
-        }
+        };
+        // Frames with an execution barrier leave their registers behind when popped,
+        // so discard them here, otherwise they pile up when called in a loop.
+        self.registers.truncate(registers_len);
+        result
     }
 
     fn run_jump_if_true(&mut self, register: u8, offset: u32) -> Result<()> {
@@ -4361,6 +4366,9 @@ mod macros {
     macro_rules! call_metamap_arithmetic_op {
         ($self:expr, $op:ident, $op_rhs:ident, $trait_fn:ident, $trait_fn_rhs:ident, $map:expr, $lhs:expr, $rhs:expr, $result_register:expr) => {{
             let op = $map.get_meta_value(&$op.into()).unwrap();
+            // Frames with an execution barrier leave their registers behind when popped,
+            // so they get discarded below, otherwise they pile up when called in a loop.
+            let registers_len = $self.registers.len();
 
             // Call the map's op function
             $self.call_overridden_op_2(
@@ -4374,10 +4382,14 @@ mod macros {
             // - Enable the execution barrier on the function's frame so errors aren't propagated
             $self.frame_mut().execution_barrier = true;
             match $self.execute_instructions() {
-                Ok(result) => result,
+                Ok(result) => {
+                    $self.registers.truncate(registers_len);
+                    result
+                }
                 Err(error) => {
                     // Pop the frame given that an error has been thrown
                     $self.pop_frame(KValue::Null)?;
+                    $self.registers.truncate(registers_len);
                     // Check for a `koto.unimplemented` error
                     let ErrorKind::KotoError { thrown_value, .. } = &error.error else {
                         // A non-unimplemented error was thrown, so propagate it
